@@ -184,8 +184,10 @@ func memberEons(n int, cfgOf func(i int) int, sameAct bool) []EonSpec {
 //	loop  : every tick is a run of the REAL polling loop (eonPubKeyHandler.loop, shortened ticker) against a
 //	        mechanism that takes one key at a time and is slower than the ticker, until the loop is quiescent
 func Plans(thorough bool, seed int64) []Plan {
-	allModes := []string{"Broadcast", "Callback", "Both", "Neither"}
-	two := []string{"Broadcast", "Callback"}
+	// option sequences (EonPK!OptSeq): every universe has broadcast only, callback only and BOTH mechanisms
+	// enabled; the small universes add the order / repetition variants of the option functions
+	allModes := []string{"Broadcast", "Callback", "CallbackRev", "NoBcTwice", "Both", "BothTwice", "Neither"}
+	two := []string{"Broadcast", "Callback", "Both"}
 	none := []string{}
 	all3 := []string{"member", "foreign", "orphan"}
 	one := &Universe{Name: "one", Route: "query",
@@ -211,7 +213,7 @@ func Plans(thorough bool, seed int64) []Plan {
 			{U: loop, Modes: two, InsertKinds: []string{"member"}, MaxPending: 4, MaxTicks: 2, Faults: none},
 			{U: one, Modes: two, InsertKinds: []string{"member"}, MaxPending: 4, MaxTicks: 3, Faults: none},
 			{U: faults, Modes: allModes, InsertKinds: []string{"member"}, MaxPending: 4, MaxTicks: 2, Faults: []string{"sqlerr", "refuse"}},
-			{U: sets, Modes: allModes, InsertKinds: all3, MaxPending: 3, MaxTicks: 2, Faults: []string{"refuse"}},
+			{U: sets, Modes: []string{"Broadcast", "Callback", "Both", "Neither"}, InsertKinds: all3, MaxPending: 3, MaxTicks: 2, Faults: []string{"refuse"}},
 			{U: dkg, Modes: two, InsertKinds: []string{"member"}, MaxPending: 4, MaxTicks: 2, Faults: none},
 		}
 	} else {
